@@ -49,7 +49,7 @@ NOT_APPLICABLE = [
     {"property_id": "C20", "reason": "pure encode/decode property of ~1400 generated protobuf types: no schedule, clock, fault, party or history enters it, so deterministic simulation has nothing to decide (the three types the contracts use are covered by C19)"},
 ]
 
-PENDING = {"C13"}  # built but not yet registered
+PENDING = set()  # built but not yet registered
 checks = []
 for pid in sorted(CHECKS):
     if pid in PENDING:
